@@ -30,31 +30,34 @@ def _child(state, cmd):
     else:
         chooser = baton.make_chooser(cfg["policy"], random.Random(cfg["sched_seed"]))
     sched = baton.Scheduler(chooser, cfg.get("step_cap", 400000), trace_files=H.G["trace_files"])
-    lock = baton.SimLock(sched, "calculation_lock")
+    import _thread
+    import threading as _threading
+    rlock_type = type(_threading.RLock())
+    # (same kind of lock as the one it stands in for: re-entrant iff the original is)
+    lock = baton.SimLock(sched, "calculation_lock",
+                         reentrant=isinstance(getattr(sasview_model, "calculation_lock", None), rlock_type))
     if not cfg.get("no_sim_lock"):
         sasview_model.calculation_lock = lock
     # Any other lock the interface may use has to be visible to the scheduler too (a real
     # lock held by a parked thread would block the simulator): locks that already exist
     # at module or class level are replaced, and the module's lock factories hand out
     # simulated locks from now on.
-    import _thread
-    import threading as _threading
-    real_types = (type(_thread.allocate_lock()), type(_threading.RLock()))
+    real_types = (type(_thread.allocate_lock()), rlock_type)
     sim_locks = [lock]
 
-    def _sim(name):
-        lk = baton.SimLock(sched, name)
+    def _sim(name, reentrant=False):
+        lk = baton.SimLock(sched, name, reentrant=reentrant)
         sim_locks.append(lk)
         return lk
     from sasmodels import kerneldll as _kd
     for mod in (sasview_model, _kd):
         for name, val in list(vars(mod).items()):
             if isinstance(val, real_types):
-                setattr(mod, name, _sim("%s.%s" % (mod.__name__.split(".")[-1], name)))
+                setattr(mod, name, _sim("%s.%s" % (mod.__name__.split(".")[-1], name), isinstance(val, rlock_type)))
             elif isinstance(val, type):
                 for an, av in list(vars(val).items()):
                     if isinstance(av, real_types):
-                        setattr(val, an, _sim("%s.%s" % (val.__name__, an)))
+                        setattr(val, an, _sim("%s.%s" % (val.__name__, an), isinstance(av, rlock_type)))
 
     class _LockFactory(object):
         def __init__(self, real):
@@ -65,7 +68,10 @@ def _child(state, cmd):
 
         def allocate_lock(self):
             return _sim("lock#%d" % len(sim_locks))
-        Lock = RLock = allocate_lock
+        Lock = allocate_lock
+
+        def RLock(self):
+            return _sim("rlock#%d" % len(sim_locks), True)
     for mod in (sasview_model, _kd):
         for name in ("thread", "_thread", "threading"):
             if name in vars(mod):
